@@ -4,6 +4,7 @@ import (
 	"fmt"
 	"strconv"
 	"strings"
+	"unicode"
 
 	"github.com/remieven/ysgo/verifharness/core"
 	"github.com/remieven/ysgo/verifharness/hast"
@@ -78,6 +79,14 @@ func Flow(r *core.Rand, cfg FlowCfg) *hast.Program {
 			t = "N" + strconv.Itoa(i+1)
 		}
 		g.titles = append(g.titles, t)
+	}
+	if !cfg.Random && n >= 2 && r.Chance(1, 6) {
+		// two titles that differ only by the case of their letters are two nodes
+		j := r.Range(0, n-2)
+		k := r.Range(j+1, n-1)
+		if v := swapCase(g.titles[j]); v != g.titles[j] {
+			g.titles[k] = v
+		}
 	}
 	if cfg.StartNotFirst && !cfg.Random && n >= 2 && r.Chance(1, 4) {
 		k := r.Range(1, n-1)
@@ -210,6 +219,19 @@ func Flow(r *core.Rand, cfg FlowCfg) *hast.Program {
 		p.Nodes = append(p.Nodes, dup)
 	}
 	return p
+}
+
+// swapCase swaps the case of every letter.
+func swapCase(s string) string {
+	rs := []rune(s)
+	for i, c := range rs {
+		if u := unicode.ToUpper(c); u != c {
+			rs[i] = u
+		} else {
+			rs[i] = unicode.ToLower(c)
+		}
+	}
+	return string(rs)
 }
 
 func (g *flowGen) visitLine() *hast.Stmt {
@@ -393,7 +415,9 @@ func (g *flowGen) body(depth int) []*hast.Stmt {
 			for k := r.Range(1, 4); k > 0; k-- {
 				o := &hast.Option{Parts: g.parts("O"), Tags: g.tags()}
 				if r.Chance(1, 3) {
-					o.Cond = g.cond(false)
+					// (logged probes here too: every condition of a group is evaluated exactly once, in order,
+					// when the group is shown)
+					o.Cond = g.cond(true)
 				}
 				if !r.Chance(1, 4) {
 					o.Body = g.body(depth + 1)
